@@ -61,6 +61,7 @@ def run(res, tier, br, model_ok=True, search=False):
                     texts[-1] = texts[-1][:hdr_end] + f"\n#define {g} 1\n" + texts[-1][hdr_end:]
                 names.append(nm)
                 texts.append(text)
+            textof = dict(zip(names, texts))
             for nm, text in zip(names, texts):
                 with open(os.path.join(d, nm), "w") as f:
                     f.write(text)
@@ -74,7 +75,16 @@ def run(res, tier, br, model_ok=True, search=False):
             if seq and si % 3 == 1:
                 # the same path mentioned more than once: one verdict per mention
                 variants.append(("paths-repeat", list(names) + [rng.choice(names) for _ in range(rng.randint(1, 2))], []))
+            if seq and si % 5 == 4:
+                # the files found through a directory argument, below folders that are themselves named like sources
+                variants.append(("dir-named", ["."], []))
             for vname, argv, opts in variants:
+                if vname == "dir-named":
+                    # move every file into a folder whose own name ends in .c / .h (two levels for some)
+                    for k, nm in enumerate(names):
+                        sub = ["gen.c", "api.h", os.path.join("x.h", "y.c")][k % 3]
+                        os.makedirs(os.path.join(d, sub), exist_ok=True)
+                        os.replace(os.path.join(d, nm), os.path.join(d, sub, nm))
                 use_sub = (tier == "thorough" and si % 7 == 0) or (si % 40 == 0)
                 out = run_cli(opts + argv, d) if use_sub else main_inprocess(opts + argv, d)
                 res.count("cli", 1, subprocess=int(use_sub))
@@ -84,13 +94,13 @@ def run(res, tier, br, model_ok=True, search=False):
                 outcomes = []
                 vnames = argv if vname.startswith("paths") else names
                 for nm in vnames:
-                    src = open(os.path.join(d, nm)).read()
+                    src = textof[nm]
                     # the reference for a file that shares a macro name with another file of the run is its
                     # analysis in a fresh interpreter (nothing an earlier run may have left behind)
                     r = pipeline_fresh(nm, src) if nm.endswith(".h") else pipeline(nm, src)
                     outcomes.append((nm, r))
                 replay = {"kind": "cli", "classes": list(seq), "variant": vname, "opts": opts,
-                          "files": {nm: open(os.path.join(d, nm)).read() for nm in names}}
+                          "files": {nm: textof[nm] for nm in names}}
                 if out.get("exc") or out.get("hang") or out.get("exit") is None or (use_sub and "Traceback" in out.get("stderr", "")):
                     res.report(out.get("exc") or ("hang@main" if out.get("hang") else "crash:main"),
                                f"run over {seq} ({vname}) did not end with an exit status: {out.get('exc')} {out.get('stderr','')[-200:]}", replay)
@@ -157,7 +167,7 @@ def oracle(res, seq, vname, names, outcomes, out, replay):
             res.report("empty-run", f"empty selection: exit {out['exit']}, output {text[:80]!r}", replay)
         return
     if fatal:
-        first = fatal[0] if vname != "dir" else None
+        first = fatal[0] if not vname.startswith("dir") else None
         if out["exit"] == 0:
             res.report("fatal:exit-zero", f"{seq}: a fatally unparsable file but exit status 0", replay)
         named = [nm for nm in fatal if (nm + ": Error!") in text or ("/" + nm + ": Error!") in text]
@@ -169,7 +179,7 @@ def oracle(res, seq, vname, names, outcomes, out, replay):
     ph = parse_human(text)
     got = [(f[0], f[1]) for f in ph]
     want = [(nm, r["status"]) for nm, r in outcomes]
-    if vname == "dir":
+    if vname.startswith("dir"):
         got, want = sorted(got), sorted(want)
     if got != want:
         res.report("verdicts", f"{seq} ({vname}): verdict lines {got}, expected one per file {want}", replay)
@@ -270,7 +280,12 @@ def replay(rp):
         names = list(rp["files"])
         for nm, src in rp["files"].items():
             open(os.path.join(d, nm), "w").write(src)
-        argv = ["."] if rp["variant"] == "dir" else names
+        argv = ["."] if rp["variant"].startswith("dir") else names
+        if rp["variant"] == "dir-named":
+            for k, nm in enumerate(names):
+                sub = ["gen.c", "api.h", os.path.join("x.h", "y.c")][k % 3]
+                os.makedirs(os.path.join(d, sub), exist_ok=True)
+                os.replace(os.path.join(d, nm), os.path.join(d, sub, nm))
         out = main_inprocess(rp["opts"] + argv, d)
         from impl import pipeline_fresh
         outcomes = [(nm, pipeline_fresh(nm, rp["files"][nm]) if nm.endswith(".h") else pipeline(nm, rp["files"][nm])) for nm in names]
